@@ -62,5 +62,8 @@ func init() {
 	regProp(&PropSpec{ID: "C03", Level: "model_checking", Groups: []string{"csproto"}, QuickTimeout: 600, ThorTimeout: 3000})
 	regProp(&PropSpec{ID: "C19", Level: "model_checking", Groups: []string{"csproto"}, QuickTimeout: 600, ThorTimeout: 3000})
 	regProp(&PropSpec{ID: "C13", Level: "model_checking", Groups: []string{"lazyproto"}, QuickTimeout: 600, ThorTimeout: 3000})
+	regProp(&PropSpec{ID: "C15", Level: "other", Groups: []string{"lazyproto"}, QuickTimeout: 600, ThorTimeout: 3000,
+		Explanation: "thread-modular ownership obligation decided on every feasible single-thread path by symbolic execution + SMT (no schedule is enumerated): after NewDecoder, objects reachable from the Decoder and all package variables are shared; no non-atomic, non-mutex write may target them; pooled results are owned by one goroutine between Get and Put. Isolation of simultaneously live results is checked on the single-thread projection of two goroutines under an adversarial pool model. Ownership violations are replayed as a goroutine workload under the Go race detector.",
+		TrustedBase: []string{"sync.Pool contract: an object is handed to at most one getter at a time and Put happens-before the matching Get", "the thread-modular argument: goroutines that share only the Decoder and never write shared objects non-atomically have no data race (Go memory model)", "races inside the Go runtime and the real scheduler are not explored"}})
 	regProp(&PropSpec{ID: "C14", Level: "model_checking", Groups: []string{"lazyproto"}, QuickTimeout: 600, ThorTimeout: 3000})
 }
